@@ -517,3 +517,213 @@ def repeat_pairing_rule(ctx, facts, rid):
             if n[0] == "call" and (n[2] or "").endswith("or_insert") and n[3][1] == ("const", 1, "usize"):
                 ins1 = True
     r.check(okc and ins1, "HashRepeat::push/increment", "HashRepeat::push does not increment by one / insert 1", what="push: count += 1 or insert 1")
+
+
+# ---------------------------------------------------------------------------------------------- C17
+
+WALKER = "owlchess::chain::Walker::<'a>::"
+
+
+def walker_sync_rule(ctx, facts, rid):
+    r = ctx.rule(rid, "Walker::set_board_pos loops until board_pos == target: unmake after decrement, make before increment")
+    lst = facts.instances(WALKER + "set_board_pos")
+    if not lst:
+        r.anchor_missing(WALKER + "set_board_pos")
+        return
+    fn = lst[0]
+    fb = FxBuilder(facts, stop=(MAKE_U, UNMAKE_U))
+    tree = fb.tree(fn)
+    loops = []
+    for n in tree:
+        if n[0] == "switch":
+            d = unstamp(n[1])
+            body = None
+            for lab, sub in n[2].items():
+                if sub and sub[-1][0] == "backedge":
+                    body = sub
+            loops.append((d, body, n))
+    target = ("param", 2, fn.body.names.get(2, "_2"))
+
+    def guard(d):
+        if d[0] == "bin" and d[1] in ("Gt", "Lt") and "board_pos" in show(d[2]) and d[3] == target:
+            return d[1]
+        if d[0] == "bin" and d[1] in ("Gt", "Lt") and "board_pos" in show(d[3]) and d[2] == target:
+            return {"Gt": "Lt", "Lt": "Gt"}[d[1]]
+        return None
+    gs = [(guard(d), body) for d, body, _n in loops]
+    back = [g for g, body in gs if g == "Gt"]
+    fwd = [g for g, body in gs if g == "Lt"]
+    r.check(len(back) == 1 and all(body is not None for g, body in gs if g == "Gt"), "set_board_pos/backward-loop",
+            "set_board_pos has no `while board_pos > target` loop (a single test leaves the board more than one ply ahead)", site=ctx.site(fn),
+            what="`board_pos > target` is a loop guard")
+    r.check(len(fwd) == 1 and all(body is not None for g, body in gs if g == "Lt"), "set_board_pos/forward-loop",
+            "set_board_pos has no `while board_pos < target` loop: a single `if` replays only one move, so after start()/end() jumps the "
+            "board lags behind the index", site=ctx.site(fn), what="`board_pos < target` is a loop guard")
+    for g, body in gs:
+        if body is None or g is None:
+            continue
+        stores = [(i, n) for i, n in enumerate(body) if n[0] == "store" and show(unstamp(n[1])).endswith(".board_pos")]
+        calls = [(i, n) for i, n in enumerate(body) if n[0] == "call" and n[2] in (MAKE_U, UNMAKE_U)]
+        if g == "Gt":
+            ok = (len(stores) == 1 and len(calls) == 1 and calls[0][1][2] == UNMAKE_U and stores[0][0] < calls[0][0]
+                  and "SubWithOverflow 1" in show(stores[0][1][2]))
+            # the index used must be the decremented one (loaded after the store)
+            a = calls[0][1][3] if calls else ()
+            idx_ok = len(a) == 3 and all("stack" in show(unstamp(x)) and "board_pos" in show(unstamp(x)) for x in a[1:]) \
+                and _loads_after_store(a[1], "board_pos")
+            r.check(ok and idx_ok, "set_board_pos/backward-body", "backward loop is not `board_pos -= 1; unmake(stack[board_pos])`", site=ctx.site(fn),
+                    what="backward: decrement, then unmake(stack[board_pos].0, .1)")
+        else:
+            ok = (len(stores) == 1 and len(calls) == 1 and calls[0][1][2] == MAKE_U and calls[0][0] < stores[0][0]
+                  and "AddWithOverflow 1" in show(stores[0][1][2]))
+            r.check(ok, "set_board_pos/forward-body", "forward loop is not `make(stack[board_pos]); board_pos += 1`", site=ctx.site(fn),
+                    what="forward: make(stack[board_pos].0), then increment")
+
+
+def _loads_after_store(e, field):
+    """All loads of `.field` inside e have a memory version > 0 (i.e. were read after the store in this loop body)."""
+    ok = True
+    found = False
+
+    def rec(x):
+        nonlocal ok, found
+        if not isinstance(x, tuple) or not x:
+            return
+        if x[0] == "ld" and show(x[2]).endswith("." + field):
+            found = True
+            if x[1] == 0:
+                ok = False
+        for y in x:
+            if isinstance(y, tuple):
+                if y and isinstance(y[0], str):
+                    rec(y)
+                else:
+                    for z in y:
+                        rec(z)
+    rec(e)
+    return ok and found
+
+
+def walker_step_rule(ctx, facts, rid):
+    r = ctx.rule(rid, "Walker::next/prev hand set_board_pos the index of the move they return, with the walker's own board")
+    for meth, want_idx in (("next", "(*self.pos SubWithOverflow 1).#0"), ("prev", "*self.pos")):
+        lst = facts.instances(WALKER + meth)
+        if not lst:
+            r.anchor_missing(WALKER + meth)
+            continue
+        fn = lst[0]
+        fb = FxBuilder(facts, stop=(WALKER + "set_board_pos",))
+        tree = fb.tree(fn)
+        ok_some = ok_none = False
+        why = ""
+        for events, choices in tree_paths(tree):
+            if events[-1][0] != "ret":
+                continue
+            ret = unstamp(path_value(events[-1][1], choices))
+            calls = [e for e in events if e[0] == "call" and e[2] == WALKER + "set_board_pos"]
+            stores = [e for e in events if e[0] == "store" and show(unstamp(e[1])) == "*self.pos"]
+            if ret[0] == "agg" and ret[2] == "None":
+                ok_none = not calls and not stores
+                continue
+            if ret[0] == "agg" and ret[2] == "Some":
+                tup = ret[3][0]
+                idx = show(unstamp(calls[0][3][1])) if len(calls) == 1 else None
+                mv = show(tup[3][1]) if tup[0] == "agg" and len(tup[3]) == 2 else ""
+                brd = show(tup[3][0]) if tup[0] == "agg" and len(tup[3]) == 2 else ""
+                delta = "AddWithOverflow 1" if meth == "next" else "SubWithOverflow 1"
+                ok_some = (len(calls) == 1 and len(stores) == 1 and idx == want_idx and mv == "**self.stack[%s].#0" % want_idx
+                           and brd == "&*self.board" and delta in show(stores[0][2])
+                           and events.index(stores[0]) < events.index(calls[0]))
+                why = "set_board_pos(%s), returns (%s, %s)" % (idx, brd, mv)
+        r.check(ok_some and ok_none, "Walker::" + meth, "Walker::%s: %s; expected set_board_pos(%s) and the move stack[%s] with &self.board, "
+                "None path untouched" % (meth, why, want_idx, want_idx), site=ctx.site(fn), what="Walker::%s index discipline" % meth)
+    for meth, want in (("start", "0"), ("end", "len(&**self.stack)")):
+        lst = facts.instances(WALKER + meth)
+        if not lst:
+            r.anchor_missing(WALKER + meth)
+            continue
+        fn = lst[0]
+        fb = FxBuilder(facts)
+        tree = fb.tree(fn)
+        st = [n for n, _c, _i in walk_tree(tree) if n[0] == "store"]
+        ok = len(st) == 1 and show(unstamp(st[0][1])) == "*self.pos" and show(unstamp(st[0][2])) in (want, "PtrMetadata(&**self.stack)", "PtrMetadata(**self.stack)")
+        r.check(ok, "Walker::" + meth, "Walker::%s does not set pos := %s only" % (meth, want), site=ctx.site(fn), what="Walker::%s sets pos := %s" % (meth, want))
+    # walk(): owned clone of the board, shared slice of the stack, pos 0, board_pos = len
+    lst = facts.instances(CHAIN_R + "walk")
+    if lst:
+        fn = lst[0]
+        fb = FxBuilder(facts, stop=("<owlchess::board::Board as core::clone::Clone>::clone",))
+        ret = [x[1] for x in fb.tree(fn) if x[0] == "ret"]
+        v = unstamp(ret[0]) if ret else ("?",)
+        s = show(v)
+        ok = False
+        if v[0] == "agg" and v[2] == "Walker" and len(v[3]) == 4:
+            brd, stk, pos, bpos = v[3]
+            ok = (brd[0] == "call" and brd[1].endswith("Clone>::clone") and show(brd[2][0]) == "&*self.board"
+                  and "self.stack" in show(stk) and pos == ("const", 0, "usize") and show(bpos) in ("len(&*self.stack)",))
+        r.check(ok, "walk()", "BaseMoveChain::walk builds %s; expected {board.clone(), &stack, pos 0, board_pos len}" % s, site=ctx.site(fn), what="walk()")
+    else:
+        r.anchor_missing(CHAIN_R + "walk")
+    # the walker cannot alias the chain mutably: it holds a shared slice and an owned board
+    adt = None
+    for k, a in facts.adts.items():
+        if a and a.get("path") == "owlchess::chain::Walker":
+            adt = a
+    if adt is None:
+        r.anchor_missing("owlchess::chain::Walker")
+    else:
+        f = {x["name"]: facts.types[x["ty"]] if x["ty"] is not None else None for x in adt["variants"][0]["fields"]}
+        ok = f.get("stack") and f["stack"]["k"] == "ref" and not f["stack"]["mut"] and f.get("board") and f["board"]["k"] == "adt" \
+            and f["board"].get("path") == "owlchess::board::Board"
+        r.check(bool(ok), "Walker/fields", "Walker does not hold a shared slice of the stack and an owned Board", what="Walker{board: Board, stack: &[..]}")
+
+
+def status_rule(ctx, facts, rid):
+    r = ctx.rule(rid, "GameStatus::from(Option<Outcome>) table; UCI list separator and from_uci_list")
+    fn = facts.fns.get("<owlchess_base::types::GameStatus as core::convert::From<core::option::Option<owlchess_base::types::Outcome>>>::from")
+    T = "owlchess_base::types::"
+    if fn is None:
+        r.anchor_missing("From<Option<Outcome>> for GameStatus")
+    else:
+        gs = {v["name"]: v["discr"] for v in facts.adts[T + "GameStatus"]["variants"]}
+        fb = FxBuilder(facts)
+        cases = [(("agg", "core::option::Option", "None", ()), "Running", "None")]
+        for side in ("White", "Black"):
+            for wr in WIN_REASONS:
+                o = ("agg", OUT, "Win", (_enum_const(facts, T + "Color", side), _enum_const(facts, T + "WinReason", wr)))
+                cases.append((("agg", "core::option::Option", "Some", (o,)), side, "Win/%s/%s" % (side, wr)))
+        for dr in DRAW_REASONS:
+            o = ("agg", OUT, "Draw", (_enum_const(facts, T + "DrawReason", dr),))
+            cases.append((("agg", "core::option::Option", "Some", (o,)), "Draw", "Draw/" + dr))
+        for arg, want, nm in cases:
+            ret = [x[1] for x in fb.tree(fn, env=[arg]) if x[0] == "ret"]
+            v = ret[0] if ret else None
+            r.check(v == ("const", gs[want], T + "GameStatus"), "GameStatus::from(%s)" % nm, "GameStatus::from(%s) = %s, expected %s" % (nm, show(v) if v else None, want),
+                    site=ctx.site(fn), what="GameStatus::from(%s) = %s" % (nm, want))
+    # UciList: separator is a single space between moves
+    lst = [f for f in facts.fns.values() if f.def_path == "<owlchess::chain::UciList<'a, R> as core::fmt::Display>::fmt"]
+    if not lst:
+        r.anchor_missing("Display for UciList")
+    else:
+        fn = lst[0]
+        fb = FxBuilder(facts)
+        seps = []
+        for n, conds, _i in walk_tree(fb.tree(fn)):
+            if n[0] == "call" and any(a[0] == "str" for a in n[3]):
+                seps.append(([a[1] for a in n[3] if a[0] == "str"][0], [show(unstamp(c[0])) for c in conds]))
+        ok = len(seps) == 1 and seps[0][0] == " " and any("Ne 0" in c or "0 Ne" in c for c in seps[0][1])
+        r.check(ok, "UciList/separator", "UciList writes separators %s; expected a single space before every move but the first" % seps, site=ctx.site(fn),
+                what="UciList separator ' ' (ASCII whitespace, split by push_uci_list)")
+    lst = facts.instances(CHAIN_R + "push_uci_list")
+    if lst:
+        fn = lst[0]
+        callees = [(t["f"].get("ext") or t["f"].get("inst") or "") for _bi, t in fn.body.calls()]
+        ok = any("split_ascii_whitespace" in c for c in callees) and any("::push::<owlchess::moves::make::Uci<&str>>" in c for c in callees)
+        r.check(ok, "push_uci_list", "push_uci_list does not split on ASCII whitespace and push make::Uci(token)", site=ctx.site(fn),
+                what="push_uci_list = split_ascii_whitespace + push(Uci(token))")
+    lst = facts.instances(CHAIN_R + "from_uci_list")
+    if lst:
+        fn = lst[0]
+        callees = [(t["f"].get("inst") or "") for _bi, t in fn.body.calls()]
+        ok = any(c.endswith("::new") and "BaseMoveChain" in c for c in callees) and any(c.endswith("::push_uci_list") for c in callees)
+        r.check(ok, "from_uci_list", "from_uci_list is not new(b) + push_uci_list", site=ctx.site(fn), what="from_uci_list = new + push_uci_list")
